@@ -53,7 +53,7 @@ try:        # optional: sparse adjacency forms
     FUNCS.update({"scipy.sparse.csr_matrix": _sps.csr_matrix, "scipy.sparse.coo_matrix": _sps.coo_matrix, "scipy.sparse.csc_matrix": _sps.csc_matrix})
 except Exception:  # noqa
     pass
-METHODS = {".sum", ".all", ".any", ".max", ".min", ".mean", ".std", ".ptp", ".argsort", ".astype", ".copy", ".tolist", ".item",
+METHODS = {".get", ".keys", ".values", ".items", ".index", ".sum", ".all", ".any", ".max", ".min", ".mean", ".std", ".ptp", ".argsort", ".astype", ".copy", ".tolist", ".item",
            ".dot", ".transpose", ".round", ".nonzero", ".flatten", ".ravel", ".conj", ".reshape", ".argmax", ".argmin", ".prod", ".toarray", ".repeat", ".cumsum",
            ".squeeze", ".swapaxes", ".take", ".clip", ".trace", ".diagonal", ".conjugate", ".cumprod", ".searchsorted", ".argpartition", ".compress", ".todense", ".multiply"}
 
@@ -95,6 +95,8 @@ def ev(t: Term, env: Dict[Term, Any]) -> Any:
     if k in ("tuple", "list"):
         vals = [ev(x, env) for x in t[1]]
         return tuple(vals) if k == "tuple" else vals
+    if k == "dict":
+        return {ev(a, env): ev(b, env) for a, b in t[1]}
     if k == "call":
         f = t[1]
         if not isinstance(f, str):
